@@ -25,7 +25,9 @@ WORKERS = int(os.environ.get("WORKERS", "10"))
 
 
 def run(tree):
-    env = dict(os.environ, PYTHONHASHSEED="0", PYTHONPATH=f"{tree}")
+    env = dict(os.environ, PYTHONHASHSEED="0", PYTHONPATH=f"{tree}",
+               OMP_NUM_THREADS="1", OPENBLAS_NUM_THREADS="1",
+               MKL_NUM_THREADS="1")
     p = subprocess.run(["/venv/bin/python", f"{HERE}/otel_run_tree.py", "0",
                         str(N)], env=env, capture_output=True, text=True,
                        timeout=1800)
@@ -114,6 +116,8 @@ def main():
 
     def job(x):
         j, fired, errs = x
+        if fired and os.environ.get("SKIP_DET"):
+            return j, fired, errs, -1, len(base), []
         d = tempfile.mkdtemp(prefix="ogapf_")
         try:
             shutil.copytree("/repo/tel2puml", d + "/tel2puml",
